@@ -1,6 +1,7 @@
 import Proofs.SegTreeSample
 import Proofs.SegTreeRpow
 import Proofs.SegTreeGenEq
+import Proofs.PerGenEq
 
 /-!
 # C11 — prioritised replay samples stored items with consistent priorities and weights
@@ -351,6 +352,136 @@ theorem C11_source_translation_retrieve_spec (k : Nat) (t : List Rat)
 
 end source_translation
 
+/-! ## the buffer theorems about the definitions GENERATED from `PrioritizedReplayBuffer`
+
+`Gen/PerGen.lean` is written by `harness/py2lean_per.py` from the class `PrioritizedReplayBuffer` of
+`agilerl/components/replay_buffer.py` on every run; its functions call the generated tree functions.
+`Proofs/PerGenEq.lean` proves them equal to the PER part of the model (for every `fuel ≥ 2 · tree capacity`; the
+`ReplayBuffer` base class is the cursor / size arithmetic of the C09 ring, `ringEnv`).  `genReach pw f fuel m ops` is
+the state obtained by running the generated `__init__`, `add` and `update_priorities` on a legal history. -/
+section per_source_translation
+open SegTreeGen PerGen
+variable (pw f : Rat → Rat) (m : Nat) (ops : List Op)
+
+/-- the generated buffer code simulates the model on every legal history: it never raises, and its state is the
+    model state (`toModel`) -/
+theorem C11_source_translation_per_simulates (hm : 0 < m) (fuel : Nat) (hf : 2 * treeCapacity m ≤ fuel)
+    (hl : Legal pw (PER.new m) ops) :
+    ∃ st, genReach pw f fuel m ops = some st ∧ Good fuel st ∧ toModel st = reach pw m ops := by
+  obtain ⟨st, e, hg, ht⟩ := gen_per_reach_sim pw f m hm fuel hf ops hl
+  exact ⟨st, e, hg, ht⟩
+
+/-- **`tree_ptr` follows the ring cursor** in the generated code, after any legal history -/
+theorem C11_source_translation_per_ptr_follows_cursor (hm : 0 < m) (fuel : Nat) (hf : 2 * treeCapacity m ≤ fuel)
+    (hl : Legal pw (PER.new m) ops) :
+    ∃ st, genReach pw f fuel m ops = some st ∧ st.tree_ptr = st.ring.cursor ∧
+      st.ring.cursor = countAdded ops % st.ring.maxSize ∧ st.ring.size = min (countAdded ops) st.ring.maxSize := by
+  obtain ⟨st, e, _, ht⟩ := C11_source_translation_per_simulates pw f m ops hm fuel hf hl
+  obtain ⟨h1, h2, h3⟩ := C11_ptr_follows_cursor pw m ops hm hl
+  rw [← ht] at h1 h2 h3
+  exact ⟨st, e, h1, h2, h3⟩
+
+/-- **a new transition gets the highest priority seen so far** in the generated code: a further generated `add`
+    of `n` rows succeeds, leaves `max_priority` unchanged and makes the generated `sum_tree[…]` of the `n` slots
+    from the cursor on equal to `max_priority ** alpha` -/
+theorem C11_source_translation_per_new_gets_max (hm : 0 < m) (fuel : Nat) (hf : 2 * treeCapacity m ≤ fuel)
+    (hl : Legal pw (PER.new m) ops) (n : Nat) :
+    ∃ st st', genReach pw f fuel m ops = some st ∧
+      PrioritizedReplayBuffer.add (ringEnv pw f) fuel st n = some st' ∧
+      st'.max_priority = st.max_priority ∧
+      st.max_priority = (seenPriorities ops).foldl max 1 ∧
+      ∀ j, j < n → SegmentTree.getitem SumSegmentTree.op SumSegmentTree.initValue st'.sum_tree_cap st'.sum_tree
+        ((st.ring.cursor + j) % st.ring.maxSize) = some (pw st.max_priority) := by
+  obtain ⟨st, e, hg, ht⟩ := C11_source_translation_per_simulates pw f m ops hm fuel hf hl
+  obtain ⟨st', e', hg', ht'⟩ := gen_per_add_eq pw f fuel st _ ⟨hg, ht⟩ n
+  obtain ⟨a1, a2⟩ := C11_new_gets_max pw m ops hm hl n
+  have hmax := C11_max_priority_is_highest_seen pw m ops hm hl
+  have hinv := reach_inv pw m ops hm hl
+  obtain ⟨_, _, hms, _⟩ := add_inv pw _ _ _ hinv n
+  rw [← ht'] at a1 a2 hms
+  rw [← ht] at a1 a2 hmax hms
+  refine ⟨st, st', e, e', a1, hmax, fun j hj => ?_⟩
+  rw [gen_getitem_eq]
+  have hlt : (st.ring.cursor + j) % st.ring.maxSize < st'.sum_tree_cap := by
+    have h1 : (st.ring.cursor + j) % st.ring.maxSize < st.ring.maxSize := Nat.mod_lt _ hg.pos
+    have h2 : st'.ring.maxSize ≤ st'.sum_tree_cap := hg'.le
+    have h3 : st'.ring.maxSize = st.ring.maxSize := hms
+    omega
+  rw [if_pos hlt]
+  exact congrArg some (a2 j hj)
+
+/-- **only stored transitions of positive mass are sampled, index `i` owning an interval of length
+    `priority_i ** alpha`** — for the generated `_sample_proportional` with explicit draws in `[0, 1)`: it succeeds,
+    returns one index per draw, namely the end of the model's walk for the stratified mass `u`, which is a stored
+    index with `prefix i ≤ u < prefix i + leaf i` -/
+theorem C11_source_translation_per_sample (hpw : ∀ p, 0 < p → 0 < pw p) (hm : 0 < m) (fuel : Nat)
+    (hf : 2 * treeCapacity m ≤ fuel) (hl : Legal pw (PER.new m) ops) (rs : List Rat) (hne : rs ≠ [])
+    (hr : ∀ r ∈ rs, 0 ≤ r ∧ r < 1) :
+    ∃ st, genReach pw f fuel m ops = some st ∧ (0 < st.ring.size →
+      PrioritizedReplayBuffer.sample_proportional (ringEnv pw f) fuel st rs rs.length =
+        some ((strata (toModel st).total rs).map (retrieveWalk st.sum_tree_cap st.sum_tree)) ∧
+      ∀ u ∈ strata (toModel st).total rs,
+        0 ≤ u ∧ u < (toModel st).total ∧
+        retrieveWalk st.sum_tree_cap st.sum_tree u < st.ring.size ∧
+        (toModel st).prefix (retrieveWalk st.sum_tree_cap st.sum_tree u) ≤ u ∧
+        u < (toModel st).prefix (retrieveWalk st.sum_tree_cap st.sum_tree u)
+              + (toModel st).leaf (retrieveWalk st.sum_tree_cap st.sum_tree u)) := by
+  obtain ⟨st, e, hg, ht⟩ := C11_source_translation_per_simulates pw f m ops hm fuel hf hl
+  refine ⟨st, e, fun hs => ?_⟩
+  have hinv : PInv pw (toModel st) (countAdded ops) (seenPriorities ops) := by
+    rw [ht]; exact reach_inv pw m ops hm hl
+  obtain ⟨_, hmem⟩ := sampleIdx_spec hpw hinv hs rs hne hr
+  have hlen : ¬ rs.length = 0 := fun h => hne (List.length_eq_zero_iff.mp h)
+  constructor
+  · rw [gen_per_sample_proportional_eq pw f fuel st _ ⟨hg, rfl⟩ rs, if_neg hlen]
+    have hmap : (strata (toModel st).total rs).map (retrieve (toModel st).cap (toModel st).sumT) =
+        (strata (toModel st).total rs).map (fun u => some (retrieveWalk (toModel st).cap (toModel st).sumT u)) := by
+      apply List.map_congr_left
+      intro u hu
+      obtain ⟨u0, u1, _⟩ := hmem u hu
+      exact (retrieve_stored hinv u u0 u1).1
+    rw [hmap, allSome_map_some]
+    rfl
+  · intro u hu
+    obtain ⟨u0, u1, u2⟩ := hmem u hu
+    obtain ⟨_, _, c, d⟩ := retrieve_stored hinv u u0 u1
+    exact ⟨u0, u1, u2, c, d⟩
+
+/-- **importance weights in `(0, 1]`** for the generated `_calculate_weights` on stored indices: it succeeds and
+    returns `f (N·P(i)) / f (N·P_min)` per index, each in `(0, 1]`, for every positive antitone `f` (`x ** -beta`) -/
+theorem C11_source_translation_per_weights (hpw : ∀ p, 0 < p → 0 < pw p) (hm : 0 < m) (fuel : Nat)
+    (hf : 2 * treeCapacity m ≤ fuel) (hl : Legal pw (PER.new m) ops)
+    (hfpos : ∀ x, 0 < x → 0 < f x) (hanti : ∀ x y, 0 < x → x ≤ y → f y ≤ f x) (idxs : List Nat) :
+    ∃ st, genReach pw f fuel m ops = some st ∧ (0 < st.ring.size → (∀ i ∈ idxs, i < st.ring.size) →
+      ∃ mn ws, (toModel st).minRoot = some mn ∧
+        PrioritizedReplayBuffer.calculate_weights (ringEnv pw f) fuel st idxs = some ws ∧
+        ws = idxs.map (fun i => f ((toModel st).leaf i / (toModel st).total * ((toModel st).size : Rat)) /
+          f (mn / (toModel st).total * ((toModel st).size : Rat))) ∧
+        (toModel st).weights f idxs = some ws ∧
+        ∀ w ∈ ws, 0 < w ∧ w ≤ 1) := by
+  obtain ⟨st, e, hg, ht⟩ := C11_source_translation_per_simulates pw f m ops hm fuel hf hl
+  refine ⟨st, e, fun hs hidx => ?_⟩
+  have hinv : PInv pw (toModel st) (countAdded ops) (seenPriorities ops) := by
+    rw [ht]; exact reach_inv pw m ops hm hl
+  obtain ⟨mn, h1, _, _, _, h3, h4, h5⟩ := weights_spec hpw hinv hs idxs hidx f
+  have htot := hinv.total_pos hpw hs
+  have hcap : ∀ i ∈ idxs, i < (toModel st).cap := by
+    intro i hi
+    have h1 : i < st.ring.size := hidx i hi
+    have h2 : (toModel st).size ≤ (toModel st).maxSize := by rw [hinv.size]; omega
+    have h3 : st.ring.maxSize ≤ st.sum_tree_cap := hg.le
+    show i < st.sum_tree_cap
+    have : st.ring.size ≤ st.ring.maxSize := h2
+    omega
+  have hgen := gen_per_calculate_weights_eq pw f fuel st _ ⟨hg, rfl⟩ idxs hcap mn h1 (ne_of_gt htot)
+    (ne_of_gt (hfpos _ h4))
+  refine ⟨mn, _, h1, hgen, rfl, h3, ?_⟩
+  intro w hw
+  obtain ⟨i, hi, rfl⟩ := List.mem_map.mp hw
+  exact ratio_unit f hfpos hanti _ _ h4 (h5 i hi)
+
+end per_source_translation
+
 /-! ## boundary of the property (API misuse) and non-vacuity -/
 
 /-- outside the legal sequences: `update_priorities` accepts any index `< max_size`, also one that
@@ -375,6 +506,14 @@ example : (reach id 3 demoOps).total = 1031 ∧ (reach id 3 demoOps).minRoot = s
 example : (reach id 3 demoOps).sampleIdx [0, 1/2, 3/4, 1/2] = some [0, 1, 1, 1] := by decide +kernel
 example : (reach id 3 demoOps).sampleIdx [1/256, 0] = some [0, 1] := by decide +kernel
 example : (reach id 3 demoOps).weights (negPowN 1) [0, 1, 2] = some [3/4, 3/1024, 1] := by decide +kernel
+/-- the generated code, run on the demo history, reaches the model state and samples / weighs as the model does -/
+example : (genReach id (negPowN 1) 8 3 demoOps).map toModel = some (reach id 3 demoOps) := by decide +kernel
+example : (genReach id (negPowN 1) 8 3 demoOps).bind (fun st =>
+    PerGen.PrioritizedReplayBuffer.sample_proportional (ringEnv id (negPowN 1)) 8 st [0, 1/2, 3/4, 1/2] 4) = some [0, 1, 1, 1] := by
+  decide +kernel
+example : (genReach id (negPowN 1) 8 3 demoOps).bind (fun st =>
+    PerGen.PrioritizedReplayBuffer.calculate_weights (ringEnv id (negPowN 1)) 8 st [0, 1, 2]) = some [3/4, 3/1024, 1] := by
+  decide +kernel
 example : retrieve 4 (reach id 3 demoOps).sumT 1030 = some 2 ∧
     retrieve 4 (reach id 3 demoOps).sumT 1031 = some 3 ∧       -- u = total: unstored leaf (needs u < total)
     retrieve 4 (reach id 3 demoOps).sumT 1032 = none := by decide +kernel
